@@ -45,6 +45,7 @@ def check_returned(api, res):
 
 
 class Base(probe.Contract):
+    freeze = True  # non-TT arguments (matrices, index / factor / core-number lists) are judged as they were at call entry
     """common part: snapshot TT arguments (M4), M3 on results, live registration at depth 0"""
     api = '?'
     prop = 'C01'
@@ -735,6 +736,7 @@ class QTT2TT(Base):
 
 class BuildCore(probe.Contract):
     prop = 'C02'
+    freeze = True
 
     def __init__(self, name):
         self.api = 'tt.' + name
